@@ -13,6 +13,7 @@ package main
 import (
 	"encoding/json"
 	"fmt"
+	"net"
 	"net/netip"
 	"reflect"
 	"sort"
@@ -217,7 +218,7 @@ var events = []string{
 	"construct-0", "construct-1", "construct-2",
 	"mutate-caller-address", "mutate-caller-protocol", "mutate-caller-id", "mutate-caller-doors", "truncate-caller-slice",
 	"device-list", "mutate-device-list",
-	"call-GetDevice", "call-GetCards-other", "call-PutCard", "call-SetTimeProfile", "call-AddTask", "call-ActivateKeypads", "call-GetStatus", "call-GetTimeProfile", "call-GetCardByID", "call-GetListener",
+	"call-GetDevice", "call-GetCards-other", "call-PutCard", "call-SetTimeProfile", "call-AddTask", "call-ActivateKeypads", "call-GetStatus", "call-GetTimeProfile", "call-GetCardByID", "call-GetListener", "call-SetAddress", "call-SetListener",
 	"call-SetDoorPasscodes", "call-PutCard-formats",
 	"scribble-buffers", "mutate-returned", "clone-card-mutate-clone", "clone-card-mutate-original", "clone-device-mutate",
 }
@@ -326,6 +327,18 @@ func (w *world) apply(ev string) {
 		w.call("GetListener", target, func() (any, error) {
 			ap, _, err := w.u.GetListener(target)
 			return &ap, err
+		})
+	case "call-SetAddress":
+		// telling the controller to take another IP address changes the controller, not the configuration
+		// the client was built with: later requests still go where that configuration says
+		w.call("SetAddress", target, func() (any, error) {
+			_, err := w.u.SetAddress(target, net.IPv4(192, 168, 1, 125), net.IPv4(255, 255, 255, 0), net.IPv4(192, 168, 1, 1))
+			return nil, err
+		})
+	case "call-SetListener":
+		w.call("SetListener", target, func() (any, error) {
+			_, err := w.u.SetListener(target, netip.MustParseAddrPort("192.168.1.100:60001"), 0)
+			return nil, err
 		})
 	case "scribble-buffers":
 		if w.fake != nil {
